@@ -182,7 +182,9 @@ def _count(p):
 
 
 def run(ctx):
-    ctx.level = "proof"
+    # the function-level clauses are discharged deductively; the step from them to the property over whole HISTORIES of
+    # submissions (and the workflow-level parts) is bounded / an argument on paper: not claimed as a proof
+    ctx.level = "other"
     ctx.explanation = (
         "Job.run/run_async: on every path where the task body or output collection raises, the exception propagates "
         "and any saved Result has errored=True; a Result saved with errored=False implies both returned normally; the "
